@@ -4,6 +4,5 @@ set -e
 here="$(cd "$(dirname "$0")" && pwd)"
 cd "$here"
 mkdir -p run evidence lean/AbnfGen
-/venv/bin/python harness/extract.py --all || true
 cd lean
 lake build Abnf driver
